@@ -25,6 +25,12 @@ when the scenario has no cell.  On the method level the same is checked exactly 
 Domain of the oracle: events with ts != 0 (the callback ignores `ts == 0` like a missing ts — see
 the report; such cases are correspondence-only) and powers >= 0 (C10).
 Tolerant fields: none in the correspondence; the log-line oracle works to the 2 printed decimals.
+
+End to end (oracle only, `e2e_eval`): `acelyzer --power-stats` on generated single-rank traces with explicit,
+wrapping charge readings; the two logged lines are compared with the grid integration of the timeline the INPUT
+describes (power series 12 V * dQ / 512 / dt from the input counters, 0 above 100 W; kernel intervals = the Exec
+phases [TS3, TS4) of the input).  A defect upstream of the stage (a lost sample, a kernel interval converted
+with the wrong clock) leaves the stage-level statements true of what the stage receives; this layer shows it.
 """
 from __future__ import annotations
 
@@ -636,6 +642,11 @@ def oracle(case, r):
 
 
 def oracle_on_case(ctx: Ctx, case, verbose=False):
+    if case.get("op") == "e2e":
+        v = e2e_eval(case)
+        if v:
+            ctx.violation(v[0], v[1], case)
+        return {"e2e": v}
     try:
         r = run_real(case)
     except AttributeError as e:
@@ -666,6 +677,48 @@ def nontrivial(case, r):
     return False
 
 
+# ---------------------------------------------------------------------------------------------
+# end to end: the statistics the CLI logs for --power-stats against the timeline the INPUT describes
+# ---------------------------------------------------------------------------------------------
+
+def e2e_eval(case):
+    """single-rank trace (gen/scenario + explicit wrapping charge readings, as in C10's e2e): the expected power
+    series follows from the input counters (12 V * dQ / 512 / dt, 0 above 100 W), the kernel intervals are the
+    Exec phases [TS3, TS4) of the input; both on the device time base (the host clock of the generated trace
+    is that base plus a constant, statistics are shift invariant).  Returns (classifier, text) or None."""
+    from props import c10
+    files, truth = c10.e2e_inputs({"seed": case["seed"], "R": 1, "groups": 1, "rates": case["rates"]})
+    res = stage.e2e(["--freq=512:1100", "--power-stats", *case.get("opts", [])], files, capture_log=True)
+    if res["error"] or res["rc"] != 0:
+        return ("power-stats-raises", f"acelyzer --power-stats failed on a well-formed single-rank trace: rc={res['rc']} {res['error']}")
+    lines, _warn = parse_lines(res.get("log", ""))
+    from gen import scenario
+    epoch = scenario.build_ranks(R=1, groups=1, freq=512.0, seed=case["seed"], kernels=2)[0].dev_epoch   # deterministic
+    tr = truth[0]
+    samples = [(x["t4"], x["U"] % c10.M32, x["U"]) for x in tr if " Prep" not in x["name"]]
+    exp, _energy = c10.expected_series(samples)
+    periods = [(a[0], b[0], a[1]) for a, b in zip(exp, exp[1:]) if b[0] > a[0]]
+    kernels = []
+    for evs in files.values():
+        for e in evs:
+            a = e.get("attr")
+            if e["ph"] == "B" and a and "Cmpt Exec" in e["name"]:
+                t = a["true_TS"]
+                kernels.append((Q(t[2] - epoch, 512), Q(t[3] - epoch, 512)))
+    if not periods:
+        return None
+    if set(lines) != {"W", "WO"}:
+        return ("power-stats-time-partition", f"e2e: expected one statistics line per scenario, got {sorted(lines)}")
+    w, wo, g = grid_scenarios(periods, kernels)
+    got = {k: (None if v is None else {a: Q(b) for a, b in v.items()}) for k, v in lines.items()}
+    tol = Q(1, 200) + Q(1, 10 ** 6)
+    for label, cells in (("W", w), ("WO", wo)):
+        v = check_stats("e2e, with kernels" if label == "W" else "e2e, without kernels", got[label], expected_stats(cells, g), g, tol)
+        if v:
+            return ("power-stats-e2e", v + " (timeline taken from the input counters and Exec phases)")
+    return None
+
+
 def run(ctx: Ctx):
     cases, reals = [], []
     only = os.environ.get("VERIF_C19_OPS")          # debugging aid: restrict to some ops, e.g. "pipe"
@@ -687,6 +740,16 @@ def run(ctx: Ctx):
             ctx.count("split_segments_without_kernel", sum(1 for s in r if not s[2]))
         cases.append(case)
         reals.append(r)
+    # end to end (oracle only)
+    for i in range(ctx.n(8, 60)):
+        case = {"op": "e2e", "seed": ctx.rng.randint(0, 10 ** 6),
+                "rates": ctx.rng.choice([[200, 1000, 2000, 4000], [50, 3000], [1000, 2500, 6000], [0, 0, 1500]]),
+                "opts": ctx.rng.choice([[], [], ["-t"], ["--keep_prep"], ["--drop_globals"]])}
+        v = e2e_eval(case)
+        if v:
+            ctx.violation(v[0], v[1], case)
+        ctx.case_done(case, nontrivial=True)
+        ctx.count("op_e2e")
     ctx.extra["exhaustive"] = False
     ctx.extra["exhaustive_streams"] = "the four small grids named in `rule` are enumerated completely; the random streams are not"
     if ctx.search_mode or not ctx.driver or not ctx.driver.ok:
